@@ -324,7 +324,7 @@ func pwCustom(mod, pkg, fn, name string, f func(c *Ctx, s *Site, w *pwWrap) (str
 }
 
 // pwIdx emits an index expression of the callback as a function of the callback's own index parameter
-// (its last parameter): `def name (i : Int) : Int := …`. An identifier other than that parameter does
+// (its last parameter) and of the two slice lengths: `def name (i lenIn lenOut : Int) : Int := …`. An identifier other than that parameter does
 // not translate (broken tie).
 func pwIdx(mod, pkg, fn, name string, write bool) Site {
 	return pwCustom(mod, pkg, fn, name, func(c *Ctx, s *Site, w *pwWrap) (string, error) {
@@ -337,8 +337,8 @@ func pwIdx(mod, pkg, fn, name string, write bool) Site {
 			ie = w.write
 		}
 		s2 := *s
-		s2.Params = []Param{{"i", "Int"}}
-		s2.Vars = map[string]string{}
+		s2.Params = []Param{{"i", "Int"}, {"lenIn", "Int"}, {"lenOut", "Int"}}
+		s2.Vars = map[string]string{"len(in)": "lenIn", "len(out)": "lenOut"}
 		if ip != "_" {
 			s2.Vars[ip] = "i"
 		}
@@ -350,7 +350,7 @@ func pwIdx(mod, pkg, fn, name string, write bool) Site {
 		if ty == "Bool" {
 			return "", fmt.Errorf("index %s is not numeric", c.Pretty(ie.Index))
 		}
-		return fmt.Sprintf("/-- index expression of `%s` in the callback of `%s`, as a function of the callback's own index parameter `%s` -/\ndef %s (i : Int) : Int := %s\n",
+		return fmt.Sprintf("/-- index expression of `%s` in the callback of `%s`, as a function of the callback's own index parameter `%s` (and of `len(in)`, `len(out)`) -/\ndef %s (i lenIn lenOut : Int) : Int := %s\n",
 			c.Pretty(ie), s.Func, ip, s.Name, t), nil
 	})
 }
